@@ -589,8 +589,46 @@ def run_reconnect(rec, case):
         w.teardown()
 
 
+def run_lost_response(rec, case):
+    """A POST that the server received and processed but whose answer never
+    arrives (the connection went away): the application's sends are still
+    transmitted exactly once - the client does not post the batch again."""
+    kind, n = case['kind'], case['n']
+    rec.evaluations += 1
+    rec.count('lost_post_responses')
+    rec.key('lostresp/%s/%d' % (kind, n))
+    w = cli.make_world(kind, script={'pi': PI, 'pt': PT}, request_timeout=5)
+
+    def V(key, msg):
+        rec.viol(key, msg + ' | client=%s, %d sends in a POST whose answer is '
+                 'lost' % (kind, n), case)
+    try:
+        c, srv = w.cli, w.srv
+        r = c.call('connect', 'http://srv.test/', transports=['polling'])
+        w.run_until(lambda: r['done'], 30)
+        if not r['done'] or r['exc'] is not None:
+            V('connect-failed', 'connect: %r' % (r['exc'],))
+            return
+        srv.script['post'] = 'lost-response'
+        rs = c.call_seq('send', ['once-%d' % k for k in range(n)])
+        w.run_until(lambda: rs['done'], 30)
+        w.quiesce()
+        w.advance(0.5)
+        srv.script['post'] = 'ok'
+        w.advance(2)
+        seen = [x for po in srv.posts for x in po['body'].split(gen.SEP)
+                if x.startswith('4once-')]
+        rec.count('upstream_exactly_once', max(1, len(seen)))
+        if len(seen) != len(set(seen)):
+            V('upstream-duplicated', 'the server received %r' % (seen,))
+    finally:
+        w.teardown()
+
+
 def dispatch(rec, case):
-    if case.get('reconnect'):
+    if case.get('lostresp'):
+        run_lost_response(rec, case)
+    elif case.get('reconnect'):
         run_reconnect(rec, case)
     elif case.get('hb'):
         run_heartbeat(rec, case)
@@ -616,6 +654,9 @@ def run_shard(spec):
         c['real'] = True
     cases += [{'seed': spec['seed'], 'i': spec['shard'] * 1000000 + k,
                'url': True} for k in range(spec['nu'])]
+    if spec['shard'] == 2:
+        cases += [{'lostresp': True, 'kind': k, 'n': n}
+                  for k in 'TAR' for n in (1, 2, 5, 16)]
     if spec['shard'] == 1:
         cases += [{'reconnect': True, 'kind': k, 'first': a, 'second': b}
                   for k in 'TAR'
